@@ -385,13 +385,18 @@ pub fn judge_exec(m: &dyn Model, u: &Unit, fire_at: usize, primal: Option<isize>
     if e.hang { f.push(Finding { prop: "C04", sig: format!("par:hang:{}", tc), what: format!("a worker did not reach its next scheduling point within 20 s (statuses {})", e.statuses) }); return f; }
     if e.livelock {
         f.push(Finding { prop: "C04", sig: format!("par:nonterm:{}", pclass(m, u)), what: format!("no termination within {} scheduling decisions under the fair default continuation", e.steps) });
+        if m.has_long_arcs() { f.push(Finding { prop: "C15", sig: format!("par:nonterm:{}", pclass(m, u)), what: format!("no termination within {} scheduling decisions under the fair default continuation", e.steps) }); }
         return f;
     }
     if !e.crashed.is_empty() || e.out.panicked.is_some() {
         f.push(Finding { prop: "C04", sig: format!("par:crash:{}", tc), what: format!("worker(s) {:?} panicked: {}", e.crashed, e.out.panicked.clone().unwrap_or_default()) });
         return f;
     }
-    if e.out.fuel_out { f.push(Finding { prop: "C04", sig: format!("par:nonterm:{}", pclass(m, u)), what: format!("fuel bound hit after {} polls", e.out.polls) }); return f; }
+    if e.out.fuel_out {
+        f.push(Finding { prop: "C04", sig: format!("par:nonterm:{}", pclass(m, u)), what: format!("fuel bound hit after {} polls", e.out.polls) });
+        if m.has_long_arcs() { f.push(Finding { prop: "C15", sig: format!("par:nonterm:{}", pclass(m, u)), what: format!("fuel bound hit after {} polls", e.out.polls) }); }
+        return f;
+    }
     if let Some(p) = &e.premature { f.push(Finding { prop: "C04", sig: "par:premature-complete".to_string(), what: p.clone() }); }
     let opt = m.opt();
     let o = &e.out;
@@ -448,6 +453,18 @@ pub fn explore_unit(u: &Unit, exec_cap: u64, deadline: Instant) -> UStats {
     // default schedule first: number of polls K
     let base = run_once(m.clone(), u, usize::MAX, &primal, vec![], 20_000);
     let max_steps = if base.completed { base.steps * 50 + 2000 } else { 20_000 };
+    if !base.completed || base.out.fuel_out {
+        // the default schedule itself does not terminate (or dead-locks): report it and do not explore the (equally
+        // blocked, and very slow) other schedules of this unit
+        if !base.completed { st.leaked += 1; }
+        st.executions = 1; st.steps = base.steps as u64; st.blocked = 1; st.decision_nodes = base.trace.len() as u64;
+        for x in judge_exec(m.as_ref(), u, usize::MAX, primal.as_ref().map(|p| p.0), &base) {
+            st.violations.push((x.prop.to_string(), x.sig, x.what, json!({"engine": "sched", "unit": u.json(), "fire_at": null, "schedule": base.trace.iter().map(|c| c.idx).collect::<Vec<_>>(), "model": m.describe(), "outcome": base.out.json(), "deadlock": base.deadlock, "crashed": base.crashed, "preemptions": 0})));
+        }
+        st.completed_bound = u.bound as i64;
+        st.distinct_cs_traces = 1; st.distinct_outcomes = 1;
+        return st;
+    }
     let fires: Vec<usize> = match u.cut {
         CutMode::None => vec![usize::MAX],
         CutMode::EveryPoll => if base.completed { (1..=base.out.polls + 1).collect() } else { vec![1] },
@@ -567,6 +584,10 @@ pub struct Campaign { pub cov: Value, pub complete: bool, pub states: u64, pub t
 
 /// Farms the units out to one pinned process per core and aggregates
 pub fn explore_units(rep: &Reporter, focus: &[&str], units: &[Unit], budget_s: f64, exec_cap: u64) -> Campaign {
+    // cheap units first (the stripes visit their units in list order), so that a wall clock cap hits the deepest bounds only
+    let mut sorted: Vec<Unit> = units.to_vec();
+    sorted.sort_by_key(|u| (u.bound + if u.cut == CutMode::EveryPoll { 1 } else { 0 }, u.run));
+    let units: &[Unit] = &sorted;
     let dir = format!("{}/sched", std::env::var("VERIF_BUILD").unwrap_or_else(|_| format!("{}/.build", verif_dir())));
     let _ = std::fs::create_dir_all(&dir);
     let file = format!("{}/units-{}-{}.json", dir, rep.property, std::process::id());
@@ -647,16 +668,21 @@ pub fn explore_units(rep: &Reporter, focus: &[&str], units: &[Unit], budget_s: f
 /// deterministic instance list: the first `m` instances (enumeration order) of a family/variant whose sequential
 /// search (LEL, no cache, simple fringe, width 1) processes >= 3 sub-problems
 pub fn interesting(fam_name: &str, var: Variant, m: usize, stride: u64) -> Vec<(String, u64, Variant)> {
+    // deterministic: among the first 60 instances visited at the given stride, those whose sequential search (LEL, no
+    // cache, simple fringe, width 1) processes >= 3 sub-problems, the ones with the MOST sub-problems first (ties: index)
     let fam = family(fam_name);
-    let mut out = vec![];
+    let mut cands: Vec<(usize, u64)> = vec![];
     let mut idx = 0u64;
-    while out.len() < m && idx < fam.count() {
+    let mut seen = 0;
+    while seen < 60 && idx < fam.count() {
         let md = fam.build(idx, var);
         let o = run_seq(md.as_ref(), &RunSpec::plain(Cfg { dd: DdKind::Lel, cache: false, nodup: false, width: 1 }));
-        if o.explored >= 3 && o.panicked.is_none() && !o.fuel_out { out.push((fam_name.to_string(), idx, var)); }
+        if o.explored >= 3 && o.panicked.is_none() && !o.fuel_out { cands.push((o.explored, idx)); }
         idx += stride;
+        seen += 1;
     }
-    out
+    cands.sort_by(|a, b| b.0.cmp(&a.0).then(a.1.cmp(&b.1)));
+    cands.into_iter().take(m).map(|(_, i)| (fam_name.to_string(), i, var)).collect()
 }
 
 fn instance_list(th: bool) -> Vec<(String, u64, Variant)> {
@@ -673,6 +699,8 @@ fn instance_list(th: bool) -> Vec<(String, u64, Variant)> {
     v.extend(interesting("TM-N1.1", rub, k, 11));
     v.extend(interesting("TM-N2.1", dom, k.min(3), 13));
     v.extend(interesting("SP-4", sp, k, 211));
+    v.extend(interesting("KP-3", Variant { rub: Rub::Exact, ..base }, k, 173));
+    v.extend(interesting("KP-3", base, k.min(3), 389));
     v
 }
 
@@ -706,11 +734,22 @@ fn units_c04(th: bool) -> Vec<Unit> {
 }
 fn units_c05(th: bool) -> Vec<Unit> {
     let mut v = vec![];
+    // two workers which BOTH get cut off in a particular order need two pre-emptions: a deeper bound on four
+    // representative configurations, the shallower one on all twelve
+    let deep = if th { vec![Cfg { dd: DdKind::Lel, cache: false, nodup: false, width: 1 }, Cfg { dd: DdKind::Fc, cache: true, nodup: true, width: 1 },
+                Cfg { dd: DdKind::Pooled, cache: false, nodup: true, width: 1 }, Cfg { dd: DdKind::Lel, cache: true, nodup: false, width: 2 }] }
+               else { vec![Cfg { dd: DdKind::Lel, cache: false, nodup: false, width: 1 }, Cfg { dd: DdKind::Fc, cache: true, nodup: true, width: 1 }] };
     for (fam, idx, var) in instance_list(th) {
         for cfg in cfgs12(1) {
             for (t, b) in if th { vec![(2usize, 2usize), (3, 1)] } else { vec![(2usize, 1usize), (3, 0)] } {
                 v.push(Unit { fam: fam.clone(), idx, var, cfg, construct: t, run: t, cut: CutMode::EveryPoll, bound: b, primal: false });
             }
+        }
+        // quick: the deeper bound on the first instance of each family only
+        if !th && v.iter().any(|u: &Unit| u.fam == fam && u.var == var && u.idx != idx) { continue; }
+        for cfg in deep.iter() {
+            let (t, b) = if th { (2usize, 3usize) } else { (2usize, 2usize) };
+            v.push(Unit { fam: fam.clone(), idx, var, cfg: *cfg, construct: t, run: t, cut: CutMode::EveryPoll, bound: b, primal: false });
         }
     }
     v
@@ -743,7 +782,14 @@ pub fn check(prop: &str, tier: &str) -> i32 {
         "the C03 exploration plus (i) construction/run thread-count pairs c != r, (ii) the cut-off firing at every poll index; monitors of the scheduler on every execution: deadlock (no enabled worker while one is parked = lost wake-up), worker crash, no termination within 50x the default schedule length under the fair default continuation, hang outside scheduling points, premature completion (a worker leaves with Complete while sub-problems are open or in progress); non-trivial = executions in which >= 2 workers processed sub-problems"
     });
     cov["scope"] = unit_scope(&units);
-    cov["exhaustive"] = json!(c.complete);
+    // input dimension: the parallel solver with ONE worker over the bounded-exhaustive families (deterministic)
+    let dl = Some(Instant::now() + Duration::from_secs(if th { 600 } else { 12 }));
+    let mut plans = crate::checks::par1_plans(th, crate::bnb::Mode::Plain, false);
+    if prop == "C04" { let mut cut = crate::checks::par1_plans(th, crate::bnb::Mode::Cutoffs, false); for p in cut.iter_mut() { p.limit = Some(p.limit.unwrap_or(u64::MAX).min(if th { 2000 } else { 150 })); } plans.extend(cut); }
+    let (a1, s1, c1) = crate::bnb::run_plans(&rep, &[prop], &plans, dl);
+    cov["single_worker_part"] = crate::checks::par1_cov(&a1, s1, c1);
+    cov["evaluations"] = json!(c.executions + a1.runs + a1.cut_runs);
+    cov["exhaustive"] = json!(c.complete && c1);
     rep.finish("model_checking", cov, assumptions())
 }
 fn assumptions() -> Vec<String> {
@@ -771,6 +817,21 @@ pub fn c02_parallel_part(rep: &Reporter) -> (Value, bool) {
 }
 pub fn c05_parallel_part(rep: &Reporter) -> (Value, bool) { part(rep, "C05", units_c05(rep.thorough()), 35.0, 1200.0) }
 pub fn c09_parallel_part(rep: &Reporter) -> (Value, bool) { part(rep, "C09", units_c09(rep.thorough()), 30.0, 900.0) }
+pub fn c15_parallel_part(rep: &Reporter) -> (Value, bool) {
+    let th = rep.thorough();
+    let k = if th { 5 } else { 2 };
+    let irr = Variant { flat: true, la: true, ..Variant::BASE };
+    let mut insts = vec![];
+    for f in ["TM-N0.0irr", "TM-N1.0irr", "TM-N2.0irr", "TM-N3.0irr"] { insts.extend(interesting(f, irr, k, 17)); }
+    insts.extend(interesting("SP-4", irr, k, 211));
+    let mut units = vec![];
+    for (fam, idx, var) in insts {
+        for cfg in [Cfg { dd: DdKind::Pooled, cache: false, nodup: false, width: 1 }, Cfg { dd: DdKind::Pooled, cache: true, nodup: true, width: 1 }, Cfg { dd: DdKind::Pooled, cache: true, nodup: false, width: 2 }, Cfg { dd: DdKind::Fc, cache: true, nodup: true, width: 1 }] {
+            for (t, b) in if th { vec![(1usize, 0usize), (2, 2), (3, 1)] } else { vec![(1usize, 0usize), (2, 1)] } { units.push(Unit { fam: fam.clone(), idx, var, cfg, construct: t, run: t, cut: CutMode::None, bound: b, primal: false }); }
+        }
+    }
+    part(rep, "C15", units, 20.0, 600.0)
+}
 pub fn c14_parallel_part(rep: &Reporter) -> (Value, bool) { part(rep, "C14", units_c14(rep.thorough()), 15.0, 600.0) }
 
 /// re-executes one recorded schedule (replay files of this engine)
@@ -789,4 +850,23 @@ pub fn replay(v: &Value) -> i32 {
     for x in fs.iter() { println!("VIOLATION-REPLAYED property={} sig={} : {}", x.prop, x.sig, x.what); }
     if let Some(d) = e.diverged { println!("MACHINERY-ERROR {}", d); return 2; }
     if fs.is_empty() { 0 } else { 1 }
+}
+
+/// diagnostic command: `mc sched-scan <family> <n instances> <stride> <bound> <threads> <cut 0|1> [rub]`: explores the
+/// units of the first n interesting instances under LEL / no cache / simple fringe / width 1 and prints every violation
+pub fn scan(args: &[String]) -> i32 {
+    let rep = Reporter::new("SCAN", "quick");
+    let fam = &args[0];
+    let n: usize = args[1].parse().unwrap();
+    let stride: u64 = args[2].parse().unwrap();
+    let bound: usize = args[3].parse().unwrap();
+    let threads: usize = args[4].parse().unwrap();
+    let cut = if args[5] == "1" { CutMode::EveryPoll } else { CutMode::None };
+    let var = if args.get(6).map_or(false, |s| s == "rub") { Variant { rub: Rub::Exact, ..Variant::BASE } } else { Variant::BASE };
+    let insts = interesting(fam, var, n, stride);
+    let units: Vec<Unit> = insts.iter().map(|(f, i, v)| Unit { fam: f.clone(), idx: *i, var: *v, cfg: Cfg { dd: DdKind::Lel, cache: false, nodup: false, width: 1 }, construct: threads, run: threads, cut, bound, primal: false }).collect();
+    let c = explore_units(&rep, &["C02", "C03", "C04", "C05", "C09", "C14"], &units, 600.0, 200_000);
+    println!("units {} executions {} complete {}", units.len(), c.executions, c.complete);
+    for v in rep.violations.lock().unwrap().iter() { println!("{} : {} :: unit {} fire_at {} schedule {}", v.sig, v.what, v.replay["unit"]["idx"], v.replay["fire_at"], v.replay["schedule"]); }
+    0
 }
